@@ -2,6 +2,12 @@
 """Regenerates /verif/MANIFEST.json from the table below (one row per claimed property)."""
 import json, subprocess
 CHECKS = {
+ "C01": ("C", "exhaustive exploration of the environment nondeterminism (HashMap iteration order of the IPA table) through a harness-owned seam, one fresh process per order class, plus in-process call histories",
+         "The only nondeterminism in the crate is the iteration order of the std HashMap behind the IPA table. The verif seam lets the harness choose that order; 367 orders (sorted, reversed, each grapheme first) provably produce every outcome any of the 365! orders can (DESIGN §5 C01). Each runs in a fresh process and renders every bundle of base + <= 1 (2) diacritics and every single-feature change, normally and through the `+` romaniser path, plus a corpus of run() calls; all observations must be identical. 16 further processes leave the order to the real hash seed (replay check for maps the seam does not own). In-process: every call repeated, interleaved with every other call, every permutation of word lists.",
+         "The reduction argument affects completeness only. The 16 unseeded processes are a replay check, not exhaustive. Trusts that no other source of nondeterminism (clocks, randomness, threads) exists in the crate: none is imported.", "DESIGN.md §5 C01"),
+ "C14": ("A", "bounded-exhaustive enumeration of rules classified segment-only / prosody-only x every environment of the full environment alphabet x decorated word space; oracle: the untouched tier is unchanged",
+         "74 k (quick) rules: every 1- and 2-element segment-only substitution over 9 input and 6 output items and 20 prosody-only rules (stress/tone setters on % and segments, boundary deletion, insertion and metathesis), each with no environment and with every context and exception over a 22-item alphabet (optionals, ellipsis, %, structures, sets, variables, #), applied to every decorated word of W(I4,3) (thorough W(I4,4), two items per environment): 43 M applications, tier invariants checked on every Ok result.",
+         "No model needed: the oracle projects the result onto the tier the rule class must not touch. Bounded by the item alphabets and word space.", "DESIGN.md §5 C14"),
  "C10": ("B+A", "explicit-state BFS over rule histories with the staged-vs-one-shot law checked on every edge through the public API; exhaustive regrouping of every short history; every split point of the shipped example projects",
          "For every state of the BFS over the 66-rule alphabet (reached by its shortest history) and every further rule, run(h.r)(w) is compared with run(r)(render(run(h)(w))); by induction over the BFS tree this covers every split point of every explored history. Every history of 2 (3) rules is run in every grouping into rule groups with an empty group at every position. The germanic and indo-iranian example projects (frozen and live copies, with the pie.alias deromaniser) are split at every rule-group boundary for every word.",
          "Through asca::run only (text in, text out). Cases whose intermediate rendering contains � or whose prefix errors are skipped and counted. The americanist flag is a known finding confined to its own box of seeds.", "DESIGN.md §5 C10"),
